@@ -34,6 +34,7 @@ be) applied to the code; `false` = the code before the repair.  Every definition
 flag takes the configuration as an instance argument, so every theorem of the library is a theorem
 about EVERY configuration unless it names one.
 * `selectWaits` — notes/C05-fixes/01 (`SelectState.unanswered`).
+* `releaseDead` — notes/C06-fixes/01 (`release_dead_roots`, `notify_message` drops for dead receivers).
 * `exitReports` — notes/C14-fixes/01: the worker reports every terminated process
   (`Event::ProcessExited`) from `check_completed_processes`, before any ProcessResults carrying its
   result; the environment only uses it for resources (no routing, no awaits). -/
@@ -43,6 +44,10 @@ class Cfg where
   answered (result, failure or the "registered" placeholder); an already failed target is answered
   with its error in the first answer -/
   selectWaits : Bool := false
+  /-- notes/C06-fixes/01: at completion a process that cannot be resumed releases its mailbox, select
+  state and stored await answers; `notify_message` drops a message for a failed or finished
+  non-persistent process before injecting it -/
+  releaseDead : Bool := false
 
 /-- the code at /repo HEAD -/
 @[instance_reducible] def Cfg.head : Cfg := {}
@@ -179,6 +184,20 @@ def Proc.script (prog : Prog) (p : Proc) : Script := prog.getD p.fn []
 
 /-- the result of a finished process: `[script index, item₁, item₂, …]` -/
 def Proc.value (p : Proc) : Val := Val.tuple ([(p.fn : Int)] :: p.acc)
+
+/-- can the process still receive a message (`notify_message`, variant `releaseDead`)?  Not once it has
+failed, nor once it has finished unless it is persistent (then it only sleeps). -/
+def Proc.deliverable (x : Proc) : Bool :=
+  match x.result with
+  | none => true
+  | some (.ok _) => x.persistent
+  | some .err => false
+
+/-- `release_dead_roots` (variant `releaseDead`), the part the protocol model sees: a process that is
+not persistent gives up its mailbox, its select state and its stored await answers. -/
+def Proc.releaseDead (x : Proc) : Proc :=
+  if x.persistent then x
+  else { x with mailbox := [], awaiting := [], awaitFailed := [], selInit := false, selStart := none, unanswered := [] }
 
 /-- pid targets of a select (`initialize_select`: the process sources, in order). -/
 def selTargets (p : Proc) : List Src → List Pid
@@ -432,7 +451,8 @@ structure Sys where
   /- ghost history -/
   /-- (receiver, message) in the order the sends were handled by the senders' workers -/
   sent : List (Pid × Msg)
-  /-- (receiver, message) in the order `notify_message` appended them to mailboxes -/
+  /-- (receiver, message) in the order `notify_message` handled them for a process the worker knows:
+  appended to the mailbox (all of them unless variant `releaseDead` is on, see `deadDropped`) -/
   appended : List (Pid × Msg)
   /-- (receiver, message) dropped by `notify_message` because the process does not exist -/
   dropped : List (Pid × Msg)
@@ -444,6 +464,9 @@ structure Sys where
   reported : List (Pid × Pid)
   /-- (awaiter, target) for every result (or error) applied to the awaiter by its worker -/
   learned : List (Pid × Pid)
+  /-- variant `releaseDead`: the entries of `appended` that `notify_message` did NOT put into the mailbox
+  because the receiver had failed or had finished and cannot be resumed -/
+  deadDropped : List (Pid × Msg) := []
   deriving Inhabited
 
 def Sys.pushCmd (s : Sys) (w : Wid) (c : Cmd) : Sys := { s with cmdQ := upd s.cmdQ w (s.cmdQ w ++ [c]) }
@@ -609,6 +632,11 @@ def handleCmdWith (R : Rules) (s : Sys) (i : Wid) : Cmd → Sys
     let w := s.wk i
     match w.procs t with
     | some x =>
+      if Cfg.releaseDead && !x.deliverable then
+        -- variant `releaseDead`: handled (`appended` = handled by `notify_message` for a known process)
+        -- but not put into the mailbox of a process that can never receive it
+        { s.setWk i (w.wakeSelecting t) with appended := s.appended ++ [(t, m)], deadDropped := s.deadDropped ++ [(t, m)] }
+      else
       let w1 := { w with procs := upd w.procs t (some { x with mailbox := x.mailbox ++ [m] }) }
       { s.setWk i (w1.wakeSelecting t) with appended := s.appended ++ [(t, m)] }
     | none => { s.setWk i (w.wakeSelecting t) with dropped := s.dropped ++ [(t, m)] }
@@ -678,9 +706,12 @@ def WorkerSt.localAwaiters (w : WorkerSt) (cur : Pid) : List Pid :=
 
 /-- The finished branch of `Executor::step`: store the result and notify the awaiters that live on
 the same executor (`notify_result` / `notify_failure`). -/
+def WorkerSt.release (w : WorkerSt) (cur : Pid) : WorkerSt :=
+  if Cfg.releaseDead then w.modProc cur Proc.releaseDead else w
+
 def WorkerSt.finish (w : WorkerSt) (cur : Pid) (x : Proc) (ordQ : List Pid) : WorkerSt :=
   let w1 := { w with procs := upd w.procs cur (some { x with result := some x.finalRes }) }
-  (orderBy ordQ (w1.localAwaiters cur)).foldl (fun acc a => acc.notifyResult a cur x.finalRes) w1
+  ((orderBy ordQ (w1.localAwaiters cur)).foldl (fun acc a => acc.notifyResult a cur x.finalRes) w1).release cur
 
 /-- does a finishing process only go to sleep (persistent and successful)? -/
 def Proc.sleepsAfter (x : Proc) : Bool :=
